@@ -82,8 +82,8 @@ let kind_of_cres = function
   | RPanic -> "Panic" | RContinue -> "Continue" | RGoto _ -> "Goto"
 
 let big_nat k = let rec go k acc = if k <= 0 then acc else go (k - 1) (S acc) in go k O
-let tree_fuel = big_nat 100000
-let flat_fuel = big_nat 1000000
+let tree_fuel = big_nat 6000
+let flat_fuel = big_nat 30000
 let rec init_world l w = match l with
   | k :: v :: r -> init_world r { w with w_vars = w.w_vars @ [(k, v)] }
   | _ -> w
